@@ -254,7 +254,12 @@ theorem FI.moveTh (h : FI ex pf s) (i : Nat) (f : Th → Th)
 
 theorem FI.rqMove (h : FI none pf s) (i : Nat) (st : Stmt) (rest : List Stmt) (hq : (s.th i).qStmts = st :: rest) :
     FI none pf (rqMove s i st rest) := by
-  unfold PB.rqMove
+  suffices h0 : FI none pf (rqMove0 s i st rest) by
+    unfold PB.rqMove fmtNote
+    split
+    · exact h0.frame rfl
+    · exact h0
+  unfold PB.rqMove0
   have hs1 := same2_rqPrep s i
   have h1 := h.same hs1
   have hq1 : ((rqPrep s i).th i).qStmts = st :: rest := by rw [(hs1.th i).q]; exact hq
